@@ -103,11 +103,10 @@ class Ref:
         def push(l, v):
             if not isinstance(l, RList): raise RefStuck("push on non-list")
             l.items.append(v); return NIL
-        b("push", push)
         def length(l):
             if isinstance(l, RList): return len(l.items)
             raise RefStuck("len of %r" % (l,))
-        b("len", length)
+        self.modules = {"list": {"push": RBuiltin("list.push", push), "len": RBuiltin("list.len", length)}}
         b("as_float", lambda v: to_float(v))
         def for_each(l, f):
             for x in list(l.items): self.call(f, [x])
@@ -279,6 +278,10 @@ class Ref:
             a = self.ev(e[1], env); i = self.ev(e[2], env)
             return self.index(a, i)
         if k == "field":
+            if e[1][0] == "var" and env.find(e[1][1]) is None and e[1][1] in self.modules:
+                m = self.modules[e[1][1]]
+                if e[2] not in m: raise RefStuck("module %s has no modelled member %s" % (e[1][1], e[2]))
+                return m[e[2]]
             a = self.ev(e[1], env)
             if not isinstance(a, RBlob) or e[2] not in a.fields: raise RefStuck("no field " + e[2])
             return a.fields[e[2]].v
